@@ -281,7 +281,8 @@ U('C17', 'c17.assoc', 'lem_c17_assoc', 'pre_c17_3', None, lemma=True, cxx='lem_c
 for t, ct in ITYPES:
     U('C17', 'c17.mul_step.' + ct, 'lem_c17_mul_step_' + t, 'pre_muls_' + t, None, lemma=True, cxx='lem_c17_mul_step_%s($1,$2)' % t, **INTQ)
     U('C17', 'c17.mul_div.' + ct, 'lem_c17_mul_div_' + t, 'pre_muls_' + t, None, lemma=True, cxx='lem_c17_mul_div_%s($1,$2)' % t, **INTQ)
-    U('C17', 'c17.mul_div_seq.' + ct, 'lem_c17_mul_div_seq_' + t, 'pre_muls_' + t, None, lemma=True, cxx='lem_c17_mul_div_seq_%s($1,$2)' % t, **INTQ)
+    U('C17', 'c17.mul_div_seq.' + ct, 'lem_c17_mul_div_seq_' + t, 'pre_muls_' + t, None, lemma=True, cxx='lem_c17_mul_div_seq_%s($1,$2)' % t,
+      replace=[(I2F(t), 'pre_i2f_' + t, 'post_i2f_' + t), K_SHL], **INTQ)
 U('C17', 'c17.add_mono', 'lem_c17_add_mono', 'pre_c17_3', None, lemma=True, cxx='lem_c17_add_mono($1,$2,$3)')
 
 # ----------------------------------------------------------------------------- C13
